@@ -245,6 +245,9 @@ pub fn json_band(rf: &RefOut, path: &str) -> f64 {
     rf.get(p).map(|v| if v.s.is_finite() { 3e-6 * v.s } else { f64::INFINITY }).unwrap_or(0.0)
 }
 
+/// key under which a monitor may record (with an infinite scale) that the DHW indicator is rounding noise
+pub const DHW_KEY: &str = "misc.fraccion_renovable_demanda_acs_nrb";
+
 /// The plain report prepared for comparison between two evaluations: when the total primary energy is
 /// rounding noise of its own terms the RER lines are noise as well and are left out.
 pub fn comparable_report(text: &str, rf: &RefOut) -> String {
@@ -257,7 +260,12 @@ pub fn comparable_report(text: &str, rf: &RefOut) -> String {
             None => false,
         }
     };
-    text.lines().filter(|l| !(noisy && (l.starts_with("RER = ") || l.starts_with("RER_nrb = "))) && !zero_row(l)).collect::<Vec<_>>().join("\n")
+    // (C17's negated-input workload marks the DHW indicator as noise when a carrier's EPB use is a rounding residue)
+    let dhw_noisy = rf.get(DHW_KEY).map(|v| !v.s.is_finite()).unwrap_or(false);
+    text.lines()
+        .filter(|l| !(noisy && (l.starts_with("RER = ") || l.starts_with("RER_nrb = "))) && !zero_row(l) && !(dhw_noisy && l.starts_with("Porcentaje renovable de la demanda de ACS")))
+        .collect::<Vec<_>>()
+        .join("\n")
 }
 
 /// Rounding noise of the DHW renewable fraction: it is a ratio whose numerator contains f32 differences
